@@ -36,6 +36,7 @@ type daemonInfo struct {
 	Exit      int
 	LastConns int // nconns of the last connAccepted/connDone before Stop
 	ConnEvs   int
+	FirstConn int // idx of the first serve.connAccepted, -1 if none
 	PreKilled bool
 	Crasher   bool
 	// Vanish: the first observation (event index, len(evs) = final probe) that
@@ -82,7 +83,7 @@ func takeCensus(s *scen, evs []ev, pr *probe) *census {
 			shellByPid[e.Pid] = si
 		}
 		if e.Point == pDaemonStart {
-			c.Daemons[e.Pid] = &daemonInfo{Pid: e.Pid, Spawner: e.Spawner, Listen: -1, Ready: -1, Stop: -1, Exit: -1, Vanish: -1,
+			c.Daemons[e.Pid] = &daemonInfo{Pid: e.Pid, Spawner: e.Spawner, Listen: -1, Ready: -1, Stop: -1, Exit: -1, Vanish: -1, FirstConn: -1,
 				PreKilled: pr.PreKilled[e.Pid], Crasher: e.Spawner != "" && s.Crashers["d"+e.Spawner]}
 		}
 	}
@@ -96,6 +97,9 @@ func takeCensus(s *scen, evs []ev, pr *probe) *census {
 			case pReady:
 				d.Ready = e.idx
 			case pConnAccepted, pConnDone:
+				if e.Point == pConnAccepted && d.FirstConn < 0 {
+					d.FirstConn = e.idx
+				}
 				if e.Nconns != nil && d.Stop < 0 {
 					d.LastConns = *e.Nconns
 					d.ConnEvs++
@@ -159,7 +163,9 @@ func takeCensus(s *scen, evs []ev, pr *probe) *census {
 			// The same race one step earlier: the daemon had bound the path but
 			// not yet called listen(2) when the activator probed it ("refused"),
 			// and the activator then removed exactly that inode.
-			if d.Ino != 0 && (si.DetIno == d.Ino || si.RmIno == d.Ino) {
+			// (Only a daemon that had not served anybody yet can be in that
+			// state; one that refuses connections later has closed its listener.)
+			if d.Ino != 0 && (si.DetIno == d.Ino || si.RmIno == d.Ino) && (d.FirstConn < 0 || si.Detected < d.FirstConn) {
 				c.Class = "stale-toctou"
 			}
 		}
@@ -342,8 +348,8 @@ func judge(s *scen, evs []ev, pr *probe) ([]finding, *census) {
 		}
 		switch {
 		case strings.HasPrefix(d.VanishBy, "closing:"):
-			add("c4:exiting-daemon-unlinks-successor-socket", "daemon %d listened (inode %d) after daemon %s had removed its own socket but before that daemon closed its listener; "+
-				"the path lost inode %d (now %d) with no logged removal: the exiting daemon removed the path a second time", pid, d.Ino, strings.TrimPrefix(d.VanishBy, "closing:"), d.Ino, d.NowIno)
+			add("c4:exiting-daemon-unlinks-successor-socket", "daemon %d bound the path (inode %d) after daemon %s had announced its exit (serve.beforeRemoveSocket) and before that daemon had finished exiting; "+
+				"the path then lost inode %d (now %d) with no logged removal naming it: the exiting daemon removed a socket it did not create", pid, d.Ino, strings.TrimPrefix(d.VanishBy, "closing:"), d.Ino, d.NowIno)
 		case d.VanishBy == "":
 			add("c4:live-socket-vanished", "daemon %d had not decided to stop, its socket inode %d is gone from the path (now %d) and no logged removal explains it", pid, d.Ino, d.NowIno)
 		}
